@@ -8,16 +8,30 @@
 //!     `runner::verif::{exec_seq, exec_par}`) literally and after optimisation. Oracle: same result.
 //! (c) `EXPLAIN`: `Plan::explain()` of `build_plan` lists exactly the nodes of the optimised chain.
 //! (d) programs through the public builders: planned run == plain-vector reference (pipe::reference).
+//!
+//! Round 3 (audit-C): every PLAN case also runs the REAL `build_plan` on the same synthetic chain (a pipeline
+//! built through `Pipeline::verif_insert_node/verif_connect`): its chain must be the four passes composed, its
+//! `optimizations` the passes' own decisions in the documented order, every decision is reported iff its pass
+//! changed the chain (reorder: one decision per sorted block), `explain()` is recomputed from the chain
+//! independently (steps, barrier flags, costs, descriptions, counters, Display text) and everything is compared
+//! with the model (`Model/PlannerExplain.lean`). PLANX additionally runs `Runner::run_collect` (which plans by
+//! itself) sequentially and in parallel and observes the chain it received. Synthetic chains contain
+//! `CombineGlobal` (a user combiner, every fan-out shape) and `CoGroup` (sub-chains with their own blocks)
+//! nodes. `PARTS`: `suggest_partitions` and the partition count `collect_par(None, None)` really uses (counted
+//! by an operator that records every partition it is applied to). `LIFTNEG`: a user `LiftableCombiner` whose
+//! `build_from_group` is not the fold — a contract breach OUTSIDE the property, recorded, never a violation.
 
 use crate::ctx::{Ctx, guarded};
 use crate::pipe;
+use ironbeam::collection::LiftableCombiner;
 use ironbeam::combiners::Sum;
 use ironbeam::node::{DynOp, Node};
 use ironbeam::planner::verif as pv;
+use ironbeam::planner::{OptimizationDecision, Plan, build_plan};
 use ironbeam::runner::verif as rv;
 use ironbeam::type_token::{Partition, TypeTag, vec_ops_for};
-use ironbeam::{Pipeline, from_vec};
-use std::sync::Arc;
+use ironbeam::{CombineFn, ExecMode, NodeId, Pipeline, Runner, from_vec};
+use std::sync::{Arc, Mutex};
 
 type Row = (i64, i64);
 type GRow = (i64, Vec<i64>);
@@ -66,20 +80,52 @@ impl DynOp for DefaultingOp {
     fn cost_hint(&self) -> u8 { self.0.cost }
 }
 
+/// user combiner for the synthetic `CombineGlobal` nodes: component-wise sums of the rows
+#[derive(Clone)]
+struct PairSum;
+impl CombineFn<Row, Row, Row> for PairSum {
+    fn create(&self) -> Row { (0, 0) }
+    fn add_input(&self, acc: &mut Row, v: Row) { acc.0 += v.0; acc.1 += v.1; }
+    fn merge(&self, acc: &mut Row, other: Row) { acc.0 += other.0; acc.1 += other.1; }
+    fn finish(&self, acc: Row) -> Row { acc }
+}
+
+/// a user `LiftableCombiner` that BREAKS the trait's contract: `build_from_group` is not the fold of `add_input`
+/// (it adds 1000). The planner lifts on `local_groups.is_some()` alone, so GBK -> lifted combine and the direct combine
+/// differ for it. Outside the property (the combiner is not a combiner); used as a documented negative example.
+#[derive(Clone)]
+struct BadSum;
+impl CombineFn<i64, i64, i64> for BadSum {
+    fn create(&self) -> i64 { 0 }
+    fn add_input(&self, acc: &mut i64, v: i64) { *acc += v; }
+    fn merge(&self, acc: &mut i64, other: i64) { *acc += other; }
+    fn finish(&self, acc: i64) -> i64 { acc }
+}
+impl LiftableCombiner<i64, i64, i64> for BadSum {
+    fn build_from_group(&self, values: &[i64]) -> i64 { values.iter().sum::<i64>() + 1000 }
+}
+
 #[derive(Clone, Debug)]
-enum ND { Src(Vec<Row>), St(Vec<OpDesc>), Gbk, Cvl, Cv, Mat(Vec<Row>) }
+enum ND { Src(Vec<Row>), St(Vec<OpDesc>), Gbk, Cvl, Cv, Cvb, Cg(Option<usize>), Cog(Vec<ND>, Vec<ND>), Cogn, Mat(Vec<Row>) }
 
 fn b01(b: bool) -> char { if b { '1' } else { '0' } }
 fn rows_enc(r: &[Row]) -> String { if r.is_empty() { "-".into() } else { r.iter().map(|(k, v)| format!("{k}:{v}")).collect::<Vec<_>>().join(",") } }
 fn op_enc(o: &OpDesc) -> String { format!("{}{}/{}{}{}/{}", o.code, o.arg, b01(o.kp), b01(o.vo), b01(o.rs), o.cost) }
-fn chain_enc(c: &[ND]) -> String {
-    c.iter().map(|n| match n {
+fn node_enc(n: &ND) -> String {
+    match n {
         ND::Src(r) => format!("SRC {}", rows_enc(r)),
         ND::St(ops) => format!("ST {}", ops.iter().map(op_enc).collect::<Vec<_>>().join(";")),
-        ND::Gbk => "GBK".into(), ND::Cvl => "CVL".into(), ND::Cv => "CV".into(),
+        ND::Gbk => "GBK".into(), ND::Cvl => "CVL".into(), ND::Cv => "CV".into(), ND::Cvb => "CVB".into(),
+        ND::Cg(fo) => format!("CG {}", fo.map_or("none".to_string(), |f| f.to_string())),
+        ND::Cog(l, r) => {
+            let side = |c: &[ND]| if c.is_empty() { "< >".to_string() } else { format!("< {} >", c.iter().map(node_enc).collect::<Vec<_>>().join(" & ")) };
+            format!("COG {} {}", side(l), side(r))
+        }
+        ND::Cogn => "COGN".into(),
         ND::Mat(r) => format!("MAT {}", rows_enc(r)),
-    }).collect::<Vec<_>>().join(" | ")
+    }
 }
+fn chain_enc(c: &[ND]) -> String { c.iter().map(node_enc).collect::<Vec<_>>().join(" | ") }
 
 struct Built { chain: Vec<Node>, ops: Vec<(*const (), String)> }
 
@@ -88,26 +134,73 @@ fn node_of<T: ironbeam::RFBound>(p: &Pipeline, pc: &ironbeam::PCollection<T>) ->
     nodes.get(&pc.node_id()).cloned().expect("node")
 }
 
-fn build_chain(desc: &[ND]) -> Built {
+/// the co-group closure of the synthetic `CoGroup` nodes: inner join of rows, `(k, v) x (k, w) -> (k, 100 v + w)`
+fn cog_exec(l: Partition, r: Partition) -> Partition {
+    let l = *l.downcast::<Vec<Row>>().expect("cog: left rows");
+    let r = *r.downcast::<Vec<Row>>().expect("cog: right rows");
+    let mut out: Vec<Row> = vec![];
+    for (k, v) in &l { for (k2, w) in &r { if k == k2 { out.push((*k, v * 100 + w)); } } }
+    Box::new(out)
+}
+fn cog_coalesce(parts: Vec<Partition>) -> Partition {
+    let mut out: Vec<Row> = vec![];
+    for p in parts { out.extend(*p.downcast::<Vec<Row>>().expect("cog: coalesce rows")); }
+    Box::new(out)
+}
+
+struct Protos { gbk: Node, cvl: Node, cv: Node, cvb: Node, cg: Vec<(Option<usize>, Node)> }
+const FANOUTS: [Option<usize>; 6] = [None, Some(0), Some(1), Some(2), Some(3), Some(64)];
+fn protos() -> Protos {
     let p = Pipeline::default();
-    let gbk = node_of(&p, &from_vec(&p, vec![(0i64, 0i64)]).group_by_key());
-    let cvl = node_of(&p, &from_vec(&p, vec![(0i64, vec![0i64])]).combine_values_lifted(Sum::<i64>::new()));
-    let cv = node_of(&p, &from_vec(&p, vec![(0i64, 0i64)]).combine_values(Sum::<i64>::new()));
-    let mut chain = vec![];
-    let mut ops = vec![];
-    for n in desc {
-        chain.push(match n {
-            ND::Src(rows) => Node::Source { payload: Arc::new(rows.clone()), vec_ops: vec_ops_for::<Row>(), elem_tag: TypeTag::of::<Row>() },
-            ND::St(ds) => Node::Stateless(ds.iter().map(|d| {
-                let a: Arc<dyn DynOp> = if d.defaulting { Arc::new(DefaultingOp(d.clone())) } else { Arc::new(CustomOp(d.clone())) };
-                ops.push((Arc::as_ptr(&a) as *const (), format!("{}{}", d.code, d.arg)));
-                a
-            }).collect()),
-            ND::Gbk => gbk.clone(), ND::Cvl => cvl.clone(), ND::Cv => cv.clone(),
-            ND::Mat(rows) => Node::Materialized(Arc::new(rows.clone())),
-        });
+    Protos {
+        gbk: node_of(&p, &from_vec(&p, vec![(0i64, 0i64)]).group_by_key()),
+        cvl: node_of(&p, &from_vec(&p, vec![(0i64, vec![0i64])]).combine_values_lifted(Sum::<i64>::new())),
+        cv: node_of(&p, &from_vec(&p, vec![(0i64, 0i64)]).combine_values(Sum::<i64>::new())),
+        cvb: node_of(&p, &from_vec(&p, vec![(0i64, vec![0i64])]).combine_values_lifted(BadSum)),
+        cg: FANOUTS.iter().map(|fo| (*fo, node_of(&p, &from_vec(&p, vec![(0i64, 0i64)]).combine_globally(PairSum, *fo)))).collect(),
     }
+}
+
+fn build_nodes(desc: &[ND], pr: &Protos, ops: &mut Vec<(*const (), String)>) -> Vec<Node> {
+    desc.iter().map(|n| match n {
+        ND::Src(rows) => Node::Source { payload: Arc::new(rows.clone()), vec_ops: vec_ops_for::<Row>(), elem_tag: TypeTag::of::<Row>() },
+        ND::St(ds) => Node::Stateless(ds.iter().map(|d| {
+            let a: Arc<dyn DynOp> = if d.defaulting { Arc::new(DefaultingOp(d.clone())) } else { Arc::new(CustomOp(d.clone())) };
+            ops.push((Arc::as_ptr(&a) as *const (), format!("{}{}", d.code, d.arg)));
+            a
+        }).collect()),
+        ND::Gbk => pr.gbk.clone(), ND::Cvl => pr.cvl.clone(), ND::Cv => pr.cv.clone(), ND::Cvb => pr.cvb.clone(),
+        ND::Cg(fo) => pr.cg.iter().find(|(f, _)| f == fo).map(|x| x.1.clone()).expect("fan-out prototype"),
+        ND::Cog(l, r) => Node::CoGroup {
+            left_chain: Arc::new(build_nodes(l, pr, ops)), right_chain: Arc::new(build_nodes(r, pr, ops)),
+            coalesce_left: Arc::new(cog_coalesce), coalesce_right: Arc::new(cog_coalesce), exec: Arc::new(cog_exec),
+        },
+        ND::Cogn => Node::CoGroup {
+            left_chain: Arc::new(vec![]), right_chain: Arc::new(vec![]),
+            coalesce_left: Arc::new(cog_coalesce), coalesce_right: Arc::new(cog_coalesce), exec: Arc::new(cog_exec),
+        },
+        ND::Mat(rows) => Node::Materialized(Arc::new(rows.clone())),
+    }).collect()
+}
+
+fn build_chain(desc: &[ND]) -> Built {
+    let pr = protos();
+    let mut ops = vec![];
+    let chain = build_nodes(desc, &pr, &mut ops);
     Built { chain, ops }
+}
+
+/// the same chain as a pipeline graph (hook `Pipeline::verif_insert_node/verif_connect`), so that the REAL
+/// `build_plan` / `Runner::run_collect` can be called on it
+fn pipeline_of(chain: &[Node]) -> (Pipeline, Option<NodeId>) {
+    let p = Pipeline::default();
+    let mut prev: Option<NodeId> = None;
+    for n in chain {
+        let id = p.verif_insert_node(n.clone());
+        if let Some(pr) = prev { p.verif_connect(pr, id); }
+        prev = Some(id);
+    }
+    (p, prev)
 }
 
 fn shape(chain: &[Node], ops: &[(*const (), String)]) -> String {
@@ -127,15 +220,178 @@ fn shape(chain: &[Node], ops: &[(*const (), String)]) -> String {
 
 fn real_optimise(chain: Vec<Node>) -> Vec<Node> { pv::drop_mid(pv::lift(pv::reorder(pv::fuse(chain)))) }
 
+/// `hw = num_cpus::get().max(2)` as the crate sees it: `Runner::default().default_partitions` is `2 * hw`
+fn hw() -> usize { Runner::default().default_partitions / 2 }
+
+fn kinds_of(chain: &[Node]) -> Vec<String> {
+    chain.iter().map(|n| match n {
+        Node::Source { .. } => "Source".to_string(), Node::Stateless(os) => format!("Stateless{}", os.len()),
+        Node::GroupByKey { .. } => "GroupByKey".into(),
+        Node::CombineValues { local_groups, .. } => if local_groups.is_some() { "CombineValues+lifted".into() } else { "CombineValues".into() },
+        Node::CoGroup { .. } => "CoGroup".into(), Node::CombineGlobal { .. } => "CombineGlobal".into(), Node::Materialized(_) => "Materialized".into(),
+    }).collect()
+}
+
+/* ---------------------------------------------------------------- decisions and explain(): rendering + independent oracle */
+
+fn opt_usize(o: Option<usize>) -> String { o.map_or("none".to_string(), |n| n.to_string()) }
+
+fn dec_enc(d: &OptimizationDecision) -> String {
+    match d {
+        OptimizationDecision::FusedStateless { blocks_before, blocks_after, ops_count } => format!("Fused({blocks_before},{blocks_after},{ops_count})"),
+        OptimizationDecision::ReorderedValueOps { ops_count, by_cost } => format!("Reordered({ops_count},{})", u8::from(*by_cost)),
+        OptimizationDecision::LiftedGBKCombine { removed_barrier } => format!("Lifted({})", u8::from(*removed_barrier)),
+        OptimizationDecision::DroppedMidMaterialized { count } => format!("Dropped({count})"),
+        OptimizationDecision::PartitionSuggestion { source_len, partitions } => format!("Parts({},{partitions})", opt_usize(*source_len)),
+    }
+}
+fn decs_enc<'a>(ds: impl IntoIterator<Item = &'a OptimizationDecision>) -> String {
+    let v: Vec<String> = ds.into_iter().map(dec_enc).collect();
+    if v.is_empty() { "-".into() } else { v.join(",") }
+}
+
+/// canonical one-line form of `plan.explain()` (the Lean side is `Explanation.render`)
+fn render_explain(plan: &Plan) -> String {
+    let ex = plan.explain();
+    let steps: Vec<String> = ex.steps.iter().map(|s| format!("{}:{}:{}:{}:{}", s.step, s.node_type, u8::from(s.is_barrier), s.cost_hint, s.description.replace(' ', "_"))).collect();
+    format!("opts={} est={}/{}/{}/{} parts={} steps={}", decs_enc(&ex.optimizations), ex.cost_estimate.barriers, ex.cost_estimate.total_ops,
+        ex.cost_estimate.stateless_ops, opt_usize(ex.cost_estimate.source_size), opt_usize(ex.suggested_partitions), if steps.is_empty() { "-".into() } else { steps.join(";") })
+}
+
+/// "The plan reported by explain is the plan that runs", evaluated WITHOUT the model: everything `explain()` says is
+/// recomputed here from `plan.chain` (the chain `run_collect` executes) with this file's own tables.
+fn explain_oracle(cx: &mut Ctx, idx: usize, plan: &Plan) {
+    let ex = plan.explain();
+    let chain = &plan.chain;
+    let mut fails: Vec<(&'static str, String)> = vec![];
+    if ex.steps.len() != chain.len() {
+        fails.push(("explain-is-not-the-plan-that-runs", format!("{} steps for a chain of {} nodes", ex.steps.len(), chain.len())));
+    }
+    let (mut barriers, mut total, mut stateless, mut source_size) = (0usize, 0usize, 0usize, None::<usize>);
+    for (i, (st, n)) in ex.steps.iter().zip(chain.iter()).enumerate() {
+        let (ty, barrier, cost, desc): (&str, bool, u64, String) = match n {
+            Node::Source { payload, vec_ops, .. } => {
+                source_size = vec_ops.len(payload.as_ref());
+                ("Source", false, 1, format!("Read data source ({})", source_size.map_or("unknown size".to_string(), |s| format!("{s} elements"))))
+            }
+            Node::Stateless(os) => {
+                stateless += os.len(); total += os.len();
+                let list: Vec<String> = os.iter().map(|o| format!("op(cost={})", o.cost_hint())).collect();
+                ("Stateless", false, os.iter().map(|o| u64::from(o.cost_hint())).sum(), format!("Apply {} operations: [{}]", os.len(), list.join(", ")))
+            }
+            Node::GroupByKey { .. } => { barriers += 1; total += 1; ("GroupByKey", true, 100, "Group elements by key (BARRIER)".into()) }
+            Node::CombineValues { local_groups, .. } => {
+                barriers += 1; total += 1;
+                ("CombineValues", true, 80, format!("Combine values per key {} (BARRIER)", if local_groups.is_some() { "with local pre-aggregation" } else { "on pairs" }))
+            }
+            Node::CoGroup { .. } => { barriers += 1; total += 1; ("CoGroup", true, 150, "Co-group two collections (BARRIER)".into()) }
+            Node::CombineGlobal { fanout, .. } => {
+                barriers += 1; total += 1;
+                ("CombineGlobal", true, 90, format!("Global aggregation with fanout={} (BARRIER)", fanout.map_or("unbounded".to_string(), |f| f.to_string())))
+            }
+            Node::Materialized(_) => { total += 1; ("Materialized", false, 1, "Materialize results".into()) }
+        };
+        if st.step != i + 1 || st.node_type != ty || st.is_barrier != barrier {
+            fails.push(("explain-is-not-the-plan-that-runs", format!("step {} reported as #{} {} barrier={} but the chain has {ty} barrier={barrier} there", i + 1, st.step, st.node_type, st.is_barrier)));
+        }
+        if st.cost_hint != cost { fails.push(("explain-step-cost-wrong", format!("step {} ({ty}): cost_hint {} but the node's cost is {cost}", i + 1, st.cost_hint))); }
+        if st.description != desc { fails.push(("explain-step-description-wrong", format!("step {} ({ty}): {:?} but the node is {desc:?}", i + 1, st.description))); }
+    }
+    let ce = &ex.cost_estimate;
+    if (ce.barriers, ce.total_ops, ce.stateless_ops, ce.source_size) != (barriers, total, stateless, source_size) {
+        fails.push(("explain-miscounts-the-plan", format!("cost_estimate barriers/total_ops/stateless_ops/source_size = {}/{}/{}/{:?}, the chain has {barriers}/{total}/{stateless}/{source_size:?}", ce.barriers, ce.total_ops, ce.stateless_ops, ce.source_size)));
+    }
+    if decs_enc(&ex.optimizations) != decs_enc(&plan.optimizations) || ex.suggested_partitions != plan.suggested_partitions {
+        fails.push(("explain-does-not-report-the-plans-decisions", format!("explain: {} / {:?}; plan: {} / {:?}", decs_enc(&ex.optimizations), ex.suggested_partitions, decs_enc(&plan.optimizations), plan.suggested_partitions)));
+    }
+    // the Display text says the same numbers (looked up by label, not by layout)
+    let text = format!("{ex}");
+    let line_val = |label: &str| text.lines().find(|l| l.contains(label)).map(|l| l.split(label).nth(1).unwrap_or("").trim().to_string());
+    let mut want: Vec<(&str, Option<String>)> = vec![
+        ("Source Size:", Some(ce.source_size.map_or("Unknown".to_string(), |s| s.to_string()))),
+        ("Total Operations:", Some(ce.total_ops.to_string())), ("Stateless Ops:", Some(ce.stateless_ops.to_string())), ("Barrier Ops:", Some(ce.barriers.to_string())),
+    ];
+    want.push(("Suggested Parts:", ex.suggested_partitions.map(|p| p.to_string())));
+    for (label, w) in &want {
+        if line_val(label) != *w { fails.push(("explain-display-disagrees-with-explain", format!("the printed explanation says {label} {:?}, explain() says {w:?}", line_val(label)))); }
+    }
+    for st in &ex.steps {
+        let head = format!("Step {}: {}", st.step, st.node_type);
+        let ok = text.lines().any(|l| l.contains(&head) && l.contains("[BARRIER]") == st.is_barrier && (l.trim_end().ends_with(&head) || l.contains("[BARRIER]")))
+            && text.lines().any(|l| l.contains(&st.description)) && text.lines().any(|l| l.contains(&format!("Cost: {}", st.cost_hint)));
+        if !ok { fails.push(("explain-display-disagrees-with-explain", format!("the printed explanation lacks step {} ({}, barrier={}, cost {}, {:?})", st.step, st.node_type, st.is_barrier, st.cost_hint, st.description))); break; }
+    }
+    if text.contains("OPTIMIZATIONS APPLIED") == ex.optimizations.is_empty() {
+        fails.push(("explain-display-disagrees-with-explain", "optimisation section present iff no decision".into()));
+    }
+    for (sig, d) in fails { cx.oracle_fail(idx, sig, d); }
+}
+
+/// what `suggest_partitions` documents, recomputed: ceil(len / 64 000) clamped to [hw, 8 hw]
+fn expected_suggestion(len: Option<usize>) -> Option<usize> {
+    let n = len?;
+    let h = hw();
+    Some(n.div_ceil(64_000).max(h).min(h * 8))
+}
+
 fn plan_case(cx: &mut Ctx, desc: &[ND]) {
     let b = build_chain(desc);
-    let f = pv::fuse(b.chain.clone());
-    let r = pv::reorder(f.clone());
-    let l = pv::lift(r.clone());
-    let d = pv::drop_mid(l.clone());
-    let ans = format!("fuse={} reorder={} lift={} drop={}", shape(&f, &b.ops), shape(&r, &b.ops), shape(&l, &b.ops), shape(&d, &b.ops));
-    let idx = cx.case(format!("PLAN {}", chain_enc(desc)), ans, desc.len() >= 3);
+    let (f, fdec) = pv::fuse_tracked(b.chain.clone());
+    let (r, rdec) = pv::reorder_tracked(f.clone());
+    let (l, ldec) = pv::lift_tracked(r.clone());
+    let (d, ddec) = pv::drop_mid_tracked(l.clone());
+    // the REAL build_plan on the same chain as a pipeline graph
+    let (p, last) = pipeline_of(&b.chain);
+    let plan = match last.map(|id| build_plan(&p, id)) { Some(Ok(pl)) => pl, _ => { cx.count("plan:build_plan-error"); return; } };
+    let sh = |c: &[Node]| { let s = shape(c, &b.ops); if s.is_empty() { "-".to_string() } else { s } };
+    let ans = format!("fuse={} reorder={} lift={} drop={} fdec={} rdec={} ldec={} ddec={} plan={} {}", sh(&f), sh(&r), sh(&l), sh(&d),
+        decs_enc(fdec.as_ref()), decs_enc(&rdec), decs_enc(ldec.as_ref()), decs_enc(ddec.as_ref()), sh(&plan.chain), render_explain(&plan));
+    let idx = cx.case(format!("PLAN cpus={} {}", hw(), chain_enc(desc)), ans, desc.len() >= 3);
     cx.count("plan:structural");
+    // ---- build_plan is the four passes in the documented order
+    if sh(&plan.chain) != sh(&d) {
+        cx.oracle_fail(idx, "build-plan-chain-is-not-the-four-passes-composed", format!("build_plan: {} ; fuse->reorder->lift->drop_mid: {}", sh(&plan.chain), sh(&d)));
+    }
+    let src_len = match b.chain.first() { Some(Node::Source { payload, vec_ops, .. }) => vec_ops.len(payload.as_ref()), _ => None };
+    let want_sug = expected_suggestion(src_len);
+    if plan.suggested_partitions != want_sug {
+        cx.oracle_fail(idx, "partition-suggestion-wrong", format!("suggested {:?} for source length {src_len:?} on {} hardware threads, documented heuristic gives {want_sug:?}", plan.suggested_partitions, hw()));
+    }
+    let mut want_decs: Vec<String> = fdec.iter().chain(rdec.iter()).chain(ldec.iter()).chain(ddec.iter()).map(dec_enc).collect();
+    if let Some(parts) = want_sug { want_decs.push(format!("Parts({},{parts})", opt_usize(src_len))); }
+    let got_decs: Vec<String> = plan.optimizations.iter().map(dec_enc).collect();
+    if got_decs != want_decs {
+        cx.oracle_fail(idx, "build-plan-decisions-are-not-the-passes-decisions-in-order", format!("build_plan reports {got_decs:?}; the passes report {want_decs:?}"));
+    }
+    // ---- a decision is reported iff its pass changed the chain
+    let n_st = |c: &[Node]| c.iter().filter(|n| matches!(n, Node::Stateless(_))).count();
+    let n_ops = |c: &[Node]| c.iter().map(|n| if let Node::Stateless(os) = n { os.len() } else { 0 }).sum::<usize>();
+    if fdec.is_some() != (sh(&f) != sh(&b.chain)) {
+        cx.oracle_fail(idx, "fuse-decision-not-reported-iff-the-pass-changed-the-chain", format!("decision {} for {} -> {}", decs_enc(fdec.as_ref()), sh(&b.chain), sh(&f)));
+    }
+    if let Some(OptimizationDecision::FusedStateless { blocks_before, blocks_after, ops_count }) = &fdec {
+        if (*blocks_before, *blocks_after, *ops_count) != (n_st(&b.chain), n_st(&f), n_ops(&b.chain)) {
+            cx.oracle_fail(idx, "fuse-decision-miscounts", format!("reported {blocks_before} -> {blocks_after} blocks, {ops_count} ops; the chains have {} -> {} blocks, {} ops", n_st(&b.chain), n_st(&f), n_ops(&b.chain)));
+        }
+    } else if fdec.is_some() { cx.oracle_fail(idx, "fuse-decision-miscounts", format!("wrong kind of decision {}", decs_enc(fdec.as_ref()))); }
+    // reorder: exactly one decision per block the pass sorts (all ops movable, more than one op), in chain order, carrying the block's length
+    let sorted_blocks: Vec<String> = f.iter().filter_map(|n| match n {
+        Node::Stateless(os) if os.len() > 1 && os.iter().all(|o| o.value_only() && o.key_preserving() && o.reorder_safe_with_value_only()) => Some(format!("Reordered({},1)", os.len())),
+        _ => None }).collect();
+    let got_r: Vec<String> = rdec.iter().map(dec_enc).collect();
+    if got_r != sorted_blocks {
+        cx.oracle_fail(idx, "reorder-decisions-not-one-per-sorted-block", format!("reported {got_r:?}; all-movable blocks of more than one op: {sorted_blocks:?}"));
+    }
+    if sh(&r) != sh(&f) && rdec.is_empty() {
+        cx.oracle_fail(idx, "reorder-changed-the-chain-without-reporting", format!("{} -> {}", sh(&f), sh(&r)));
+    }
+    if ldec.is_some() != (sh(&l) != sh(&r)) || ldec.as_ref().is_some_and(|x| dec_enc(x) != "Lifted(1)") {
+        cx.oracle_fail(idx, "lift-decision-not-reported-iff-the-pass-changed-the-chain", format!("decision {} for {} -> {}", decs_enc(ldec.as_ref()), sh(&r), sh(&l)));
+    }
+    if ddec.is_some() != (l.len() != d.len()) || ddec.as_ref().is_some_and(|x| dec_enc(x) != format!("Dropped({})", l.len() - d.len())) {
+        cx.oracle_fail(idx, "drop-decision-not-reported-iff-the-pass-changed-the-chain", format!("decision {} for {} -> {}", decs_enc(ddec.as_ref()), sh(&l), sh(&d)));
+    }
+    explain_oracle(cx, idx, &plan);
     // structural legality, independent of the model: the multiset of op labels is unchanged by every pass,
     // barriers keep their relative order, the terminal node survives
     let labels = |c: &[Node]| { let mut v: Vec<String> = vec![]; for n in c { if let Node::Stateless(os) = n { for o in os { let ptr = Arc::as_ptr(o) as *const (); v.push(b.ops.iter().find(|(q, _)| *q == ptr).map_or("?".into(), |(_, l)| l.clone())); } } } v };
@@ -144,13 +400,23 @@ fn plan_case(cx: &mut Ctx, desc: &[ND]) {
     let (mut s1, mut s2) = (before.clone(), after.clone());
     s1.sort(); s2.sort();
     if s1 != s2 { cx.oracle_fail(idx, "optimise-drops-or-duplicates-an-op", format!("before={before:?} after={after:?}")); }
+    // the reorder pass is EXACTLY: every all-movable fused block of more than one op stably sorted by (cost != 1, cost),
+    // every other block untouched — recomputed here with std's stable sort on the descriptors, nothing from the planner
+    {
+        let want_blocks: Vec<Vec<String>> = stable_sorted_desc(desc).iter().filter_map(|n| if let ND::St(ops) = n { Some(ops.iter().map(|o| format!("{}{}", o.code, o.arg)).collect()) } else { None }).collect();
+        let got_blocks: Vec<Vec<String>> = r.iter().filter_map(|n| if let Node::Stateless(os) = n { Some(os.iter().map(|o| { let ptr = Arc::as_ptr(o) as *const (); b.ops.iter().find(|(q, _)| *q == ptr).map_or("?".into(), |(_, l)| l.clone()) }).collect()) } else { None }).collect();
+        if want_blocks != got_blocks {
+            let i = want_blocks.iter().zip(got_blocks.iter()).position(|(a, b)| a != b);
+            cx.oracle_fail(idx, "reorder-pass-is-not-the-stable-cost-sort", format!("first differing block: planner {:?}, stable sort by (cost != 1, cost) of an all-movable block / identity otherwise {:?}", i.map(|i| &got_blocks[i]), i.map(|i| &want_blocks[i])));
+        }
+    }
     // ops may only move inside an all-movable fused block
     if before != after {
         let movable_everywhere = desc.iter().all(|n| match n { ND::St(ops) => ops.iter().all(|o| o.kp && o.vo && o.rs), _ => true });
         if !movable_everywhere {
             // find a fused block containing a non-movable op whose order changed
             let fused_blocks: Vec<Vec<(String, bool)>> = fused_desc_blocks(desc);
-            let opt_blocks: Vec<Vec<String>> = d.iter().filter_map(|n| if let Node::Stateless(os) = n { Some(os.iter().map(|o| { let ptr = Arc::as_ptr(o) as *const (); b.ops.iter().find(|(q, _)| *q == ptr).map_or("?".into(), |(_, l)| l.clone()) }).collect()) } else { None }).collect();
+            let opt_blocks: Vec<Vec<String>> = r.iter().filter_map(|n| if let Node::Stateless(os) = n { Some(os.iter().map(|o| { let ptr = Arc::as_ptr(o) as *const (); b.ops.iter().find(|(q, _)| *q == ptr).map_or("?".into(), |(_, l)| l.clone()) }).collect()) } else { None }).collect();
             for (fb, ob) in fused_blocks.iter().zip(opt_blocks.iter()) {
                 let names: Vec<String> = fb.iter().map(|x| x.0.clone()).collect();
                 if &names != ob && fb.iter().any(|x| !x.1) {
@@ -159,11 +425,31 @@ fn plan_case(cx: &mut Ctx, desc: &[ND]) {
             }
         }
     }
+    // barriers (everything that is not a Stateless block or a dropped marker) keep their kind and order, except that
+    // a GBK directly followed by a lifted combine becomes a plain combine
+    {
+        let mut want: Vec<&str> = vec![];
+        let fused: Vec<&ND> = desc.iter().collect();
+        let mut i = 0;
+        // the window is looked for after fusion: Stateless nodes between GBK and CVL block it, markers too
+        while i < fused.len() {
+            match fused[i] {
+                ND::St(_) => {}
+                ND::Gbk if i + 1 < fused.len() && matches!(fused[i + 1], ND::Cvl | ND::Cvb) => { want.push("CV"); i += 1; }
+                ND::Mat(_) => { if i + 1 == fused.len() { want.push("MAT"); } }
+                ND::Src(_) => want.push("SRC"), ND::Gbk => want.push("GBK"), ND::Cvl | ND::Cvb => want.push("CVL"), ND::Cv => want.push("CV"),
+                ND::Cg(_) => want.push("CG"), ND::Cog(..) | ND::Cogn => want.push("COGROUP"),
+            }
+            i += 1;
+        }
+        let got: Vec<String> = sh(&d).split(',').filter(|x| !x.starts_with("ST[") && *x != "-").map(str::to_string).collect();
+        if got != want { cx.oracle_fail(idx, "optimise-changes-the-barrier-sequence", format!("non-stateless nodes {got:?}, expected {want:?}")); }
+    }
     if let Some(last) = desc.last() {
-        let last_kind = match last { ND::Src(_) => "SRC", ND::St(_) => "ST", ND::Gbk => "GBK", ND::Cvl => "CVL", ND::Cv => "CV", ND::Mat(_) => "MAT" };
+        let last_kind = match last { ND::Src(_) => "SRC", ND::St(_) => "ST", ND::Gbk => "GBK", ND::Cvl | ND::Cvb => "CVL", ND::Cv => "CV", ND::Cg(_) => "CG", ND::Cog(..) | ND::Cogn => "COGROUP", ND::Mat(_) => "MAT" };
         let got = shape(&d, &b.ops);
         let got_last = got.rsplit(',').next().unwrap_or("").to_string();
-        let lifted_tail = desc.len() >= 2 && matches!(desc[desc.len() - 2], ND::Gbk) && matches!(last, ND::Cvl);
+        let lifted_tail = desc.len() >= 2 && matches!(desc[desc.len() - 2], ND::Gbk) && matches!(last, ND::Cvl | ND::Cvb);
         if !(got_last.starts_with(last_kind) || (lifted_tail && got_last == "CV")) {
             cx.oracle_fail(idx, "optimise-changes-the-terminal-node", format!("terminal {last_kind} became {got_last}"));
         }
@@ -176,7 +462,6 @@ fn fused_desc_blocks(desc: &[ND]) -> Vec<Vec<(String, bool)>> {
     for n in desc {
         match n {
             ND::St(ops) => { let c = cur.get_or_insert_with(Vec::new); for o in ops { c.push((format!("{}{}", o.code, o.arg), o.kp && o.vo && o.rs)); } }
-            ND::Mat(_) => { if let Some(c) = cur.take() { out.push(c); } }
             _ => { if let Some(c) = cur.take() { out.push(c); } }
         }
     }
@@ -187,12 +472,35 @@ fn fused_desc_blocks(desc: &[ND]) -> Vec<Vec<(String, bool)>> {
 fn exec_answer(r: Result<anyhow::Result<Vec<Row>>, String>) -> String {
     match r {
         Err(_) => "PANIC".into(),
-        Ok(Err(e)) => format!("ERR:{}", format!("{e}").replace(' ', "_")),
+        Ok(Err(e)) => {
+            let m = format!("{e}");
+            if m.contains("unexpected") { "ERR:unexpected-source".into() }
+            else if m.contains("must start with a Source") { "ERR:no-source".into() }
+            else if m.contains("nested CoGroup") { "ERR:nested-cogroup".into() }
+            else { format!("ERR:other:{}", m.replace(' ', "_")) }
+        }
         Ok(Ok(mut rows)) => { rows.sort(); rows_enc(&rows) }
     }
 }
 
-fn planx_case(cx: &mut Ctx, desc: &[ND]) {
+/// `Runner::run_collect` on the chain as a pipeline graph (it plans by itself); returns the result and the node kinds
+/// of the chain it executed (hook `verif_hooks::on_plan`)
+fn run_collect_on(desc: &[ND], mode: ExecMode) -> (String, Vec<String>) {
+    let b = build_chain(desc);
+    let (p, last) = pipeline_of(&b.chain);
+    let Some(id) = last else { return ("ERR:empty".into(), vec![]) };
+    let observed: Arc<Mutex<Vec<Vec<String>>>> = Default::default();
+    let o2 = observed.clone();
+    ironbeam::verif_hooks::set_plan_callback(Some(Arc::new(move |k: &[String]| o2.lock().unwrap().push(k.to_vec()))));
+    let r = guarded(move || Runner { mode, ..Default::default() }.run_collect::<Row>(&p, id));
+    ironbeam::verif_hooks::set_plan_callback(None);
+    let ran = observed.lock().unwrap().first().cloned().unwrap_or_default();
+    (exec_answer(r), ran)
+}
+
+fn planx_case(cx: &mut Ctx, desc: &[ND]) { planx_case_kind(cx, desc, "PLANX") }
+
+fn planx_case_kind(cx: &mut Ctx, desc: &[ND], kind: &str) {
     let parts = 1 + cx.rng.below(4);
     let run = |optimise: bool, par: Option<usize>, skip_reorder: bool| -> String {
         let b = build_chain(desc);
@@ -204,9 +512,25 @@ fn planx_case(cx: &mut Ctx, desc: &[ND]) {
     let lit = run(false, None, false);
     let opt = run(true, None, false);
     let optp = run(true, Some(parts), false);
-    let ans = format!("lit={lit} opt={opt} par={optp}");
-    let idx = cx.case(format!("PLANX parts={parts} {}", chain_enc(desc)), ans, desc.len() >= 3);
+    let (rc, ran) = run_collect_on(desc, ExecMode::Sequential);
+    let (rcp, ranp) = run_collect_on(desc, ExecMode::Parallel { threads: None, partitions: Some(parts) });
+    let ans = format!("lit={lit} opt={opt} par={optp} run={rc} runpar={rcp} ran={}", ran.join(","));
+    let idx = cx.case(format!("{kind} cpus={} parts={parts} {}", hw(), chain_enc(desc)), ans, desc.len() >= 3);
     cx.count("plan:executed");
+    // the chain run_collect executed is the four passes composed, in both modes
+    let want_kinds = kinds_of(&real_optimise(build_chain(desc).chain));
+    if ran != want_kinds || ranp != want_kinds {
+        cx.oracle_fail(idx, "run-collect-executes-another-chain-than-the-four-passes-composed", format!("seq ran {ran:?}, par ran {ranp:?}, fuse->reorder->lift->drop_mid gives {want_kinds:?}"));
+    }
+    if kind == "LIFTNEG" {
+        // a combiner that breaks the LiftableCombiner contract: outside the property, recorded only
+        cx.count(if lit == opt { "liftneg:contract-breaking-combiner:literal-equals-planned" } else { "liftneg:contract-breaking-combiner:literal-differs-from-planned(expected, outside the property)" });
+        if rc != opt || rcp != optp { cx.oracle_fail(idx, "run-collect-differs-from-the-four-passes-composed", format!("run_collect seq={rc} par{parts}={rcp}; composed passes seq={opt} par{parts}={optp}")); }
+        return;
+    }
+    if rc != opt || rcp != optp {
+        cx.oracle_fail(idx, "run-collect-differs-from-the-four-passes-composed", format!("run_collect seq={rc} par{parts}={rcp}; composed passes seq={opt} par{parts}={optp}"));
+    }
     if lit != opt || lit != optp {
         let nore = run(true, None, true);
         // the listed finding is exactly "every all-movable fused block is STABLY sorted by (cost != 1, cost)": the
@@ -225,6 +549,7 @@ fn planx_case(cx: &mut Ctx, desc: &[ND]) {
 
 /// the chain with consecutive stateless nodes fused and every all-movable block sorted by the HARNESS with std's
 /// stable sort on `(cost != 1, cost)` — what the documented reorder pass is allowed to produce, computed independently
+/// (co-group sides are captured literally by the node and never planned: untouched)
 fn stable_sorted_desc(desc: &[ND]) -> Vec<ND> {
     let mut out: Vec<ND> = vec![];
     for n in desc {
@@ -285,18 +610,48 @@ fn gen_op(cx: &mut Ctx, group_typed: bool, honest: bool) -> OpDesc {
 
 fn gen_rows(cx: &mut Ctx) -> Vec<Row> { (0..cx.rng.below(9)).map(|_| (cx.rng.range(0, 3), cx.rng.range(-4, 9))).collect() }
 
+fn gen_fanout(cx: &mut Ctx) -> Option<usize> { *cx.rng.pick(&FANOUTS) }
+
+/// one side of a co-group; `typed` = starts with a source and ends row-typed (executable)
+fn gen_side(cx: &mut Ctx, typed: bool, honest: bool) -> Vec<ND> {
+    if typed {
+        let mut c = vec![ND::Src(gen_rows(cx))];
+        for _ in 0..cx.rng.below(3) {
+            match cx.rng.below(8) {
+                0..=3 => c.push(ND::St((0..1 + cx.rng.below(3)).map(|_| gen_op(cx, false, honest)).collect())),
+                4 => { c.push(ND::Gbk); c.push(ND::Cvl); }
+                5 => c.push(ND::Cv),
+                6 => c.push(ND::Cg(gen_fanout(cx))),
+                _ => c.push(ND::St((0..2).map(|_| gen_op(cx, false, honest)).collect())),
+            }
+        }
+        if cx.rng.chance(1, 25) { c.push(ND::Cogn); cx.count("cogroup:nested-in-a-side"); }
+        c
+    } else {
+        (0..cx.rng.below(5)).map(|_| match cx.rng.below(9) {
+            0 => ND::Src(gen_rows(cx)), 1..=3 => ND::St((0..1 + cx.rng.below(3)).map(|_| gen_op(cx, false, false)).collect()),
+            4 => ND::Gbk, 5 => ND::Cvl, 6 => ND::Cv, 7 => ND::Mat(gen_rows(cx)), _ => ND::Cogn,
+        }).collect()
+    }
+}
+
 /// structural chains: anything goes (ill-typed chains are never executed)
 fn gen_struct_chain(cx: &mut Ctx) -> Vec<ND> {
-    let mut c = vec![ND::Src(gen_rows(cx))];
+    // one chain in twelve does not start with a source (no length hint, no partition suggestion)
+    let mut c = if cx.rng.chance(1, 12) { cx.count("plan:chain-without-head-source"); vec![] } else { vec![ND::Src(gen_rows(cx))] };
     for _ in 0..cx.rng.below(9) {
-        c.push(match cx.rng.below(10) {
+        c.push(match cx.rng.below(13) {
             0..=4 => ND::St((0..1 + cx.rng.below(4)).map(|_| gen_op(cx, false, false)).collect()),
             5 | 6 => ND::Gbk,
             7 => ND::Cvl,
             8 => ND::Cv,
+            9 => ND::Cg(gen_fanout(cx)),
+            10 => { let (l, r) = (gen_side(cx, false, false), gen_side(cx, false, false)); ND::Cog(l, r) }
+            11 => { if cx.rng.chance(1, 2) { ND::Gbk } else { ND::St(vec![gen_op(cx, false, false)]) } }
             _ => ND::Mat(gen_rows(cx)),
         });
     }
+    if c.is_empty() { c.push(ND::St(vec![gen_op(cx, false, false)])); }
     c
 }
 
@@ -304,13 +659,17 @@ fn gen_struct_chain(cx: &mut Ctx) -> Vec<ND> {
 /// group-typed block — which must block the lift) or by the group-summing op; a mid-chain
 /// `Materialized` holds exactly the rows flowing at that point is NOT generated (its payload would
 /// replace the buffer), only payload-carrying terminal ones after a source-only prefix are.
+/// `CombineGlobal` (rows -> one row) and `CoGroup` (ignores the buffer, joins its two sides) keep the row type.
 fn gen_exec_chain(cx: &mut Ctx, honest: bool) -> Vec<ND> {
     let mut c = vec![ND::Src(gen_rows(cx))];
     for _ in 0..cx.rng.below(5) {
-        match cx.rng.below(8) {
+        match cx.rng.below(11) {
             0..=4 => c.push(ND::St((0..1 + cx.rng.below(4)).map(|_| gen_op(cx, false, honest)).collect())),
             5 => { c.push(ND::Gbk); c.push(ND::Cvl); }
             6 => { c.push(ND::Gbk); c.push(ND::St(vec![gen_op(cx, true, honest)])); c.push(ND::Cvl); }
+            7 => c.push(ND::Cv),
+            8 => { c.push(ND::Cg(gen_fanout(cx))); cx.count("plan:executed-with-combine-global"); }
+            9 => { let (l, r) = (gen_side(cx, true, honest), gen_side(cx, true, honest)); c.push(ND::Cog(l, r)); cx.count("plan:executed-with-cogroup"); }
             _ => c.push(ND::Cv),
         }
     }
@@ -330,7 +689,7 @@ fn with_restating_marker(cx: &mut Ctx, chain: &[ND]) -> Option<Vec<ND>> {
     let mut grouped = false;
     for (i, n) in chain.iter().enumerate() {
         match n {
-            ND::Src(_) | ND::Cv | ND::Cvl | ND::Mat(_) => grouped = false,
+            ND::Src(_) | ND::Cv | ND::Cvl | ND::Cvb | ND::Mat(_) | ND::Cg(_) | ND::Cog(..) | ND::Cogn => grouped = false,
             ND::Gbk => grouped = true,
             ND::St(ops) => { if ops.iter().any(|o| o.code == 'G') { grouped = false; } }
         }
@@ -346,80 +705,151 @@ fn with_restating_marker(cx: &mut Ctx, chain: &[ND]) -> Option<Vec<ND>> {
     Some(out)
 }
 
-fn explain_case(cx: &mut Ctx, prog: &pipe::Prog) {
+fn explain_case(cx: &mut Ctx, prog: &pipe::Prog, parts: usize) {
     use pipe::Coll;
     let p = Pipeline::default();
     let c = pipe::build(&p, prog);
     let id = match &c { Coll::T(x) => x.node_id(), Coll::KV(x) => x.node_id(), Coll::KG(x) => x.node_id(), Coll::R(x) => x.node_id() };
-    let plan = match ironbeam::planner::build_plan(&p, id) { Ok(pl) => pl, Err(_) => return };
-    let ex = plan.explain();
-    let kinds: Vec<String> = plan.chain.iter().map(|n| match n {
-        Node::Source { .. } => "Source".to_string(), Node::Stateless(os) => format!("Stateless{}", os.len()),
-        Node::GroupByKey { .. } => "GroupByKey".into(),
-        Node::CombineValues { local_groups, .. } => if local_groups.is_some() { "CombineValues+lifted".into() } else { "CombineValues".into() },
-        Node::CoGroup { .. } => "CoGroup".into(), Node::CombineGlobal { .. } => "CombineGlobal".into(), Node::Materialized(_) => "Materialized".into(),
-    }).collect();
-    // the chain the RUNNER actually receives, observed through the on_plan hook during a real collect
-    let observed: std::sync::Arc<std::sync::Mutex<Vec<Vec<String>>>> = Default::default();
-    {
+    let plan = match build_plan(&p, id) { Ok(pl) => pl, Err(_) => return };
+    let kinds = kinds_of(&plan.chain);
+    // the chain the RUNNER actually receives, observed through the on_plan hook during a real collect, in BOTH modes
+    let observe = |mode: pipe::Mode| -> Vec<String> {
+        let p2 = Pipeline::default();
+        let c2 = pipe::build(&p2, prog);
+        let observed: Arc<Mutex<Vec<Vec<String>>>> = Default::default();
         let o2 = observed.clone();
-        ironbeam::verif_hooks::set_plan_callback(Some(std::sync::Arc::new(move |k: &[String]| o2.lock().unwrap().push(k.to_vec()))));
-        let _ = guarded(|| pipe::collect(c, pipe::Mode::Seq));
+        ironbeam::verif_hooks::set_plan_callback(Some(Arc::new(move |k: &[String]| o2.lock().unwrap().push(k.to_vec()))));
+        let _ = guarded(|| pipe::collect(c2, mode));
         ironbeam::verif_hooks::set_plan_callback(None);
-    }
-    let ran: Vec<String> = observed.lock().unwrap().first().cloned().unwrap_or_default();
-    let idx = cx.case(format!("EXPLAIN {}", prog.request("seq").splitn(2, ' ').nth(1).unwrap_or("")), ran.join(","), prog.steps.len() >= 2);
+        let v = observed.lock().unwrap().first().cloned().unwrap_or_default();
+        v
+    };
+    let ran = observe(pipe::Mode::Seq);
+    let ranp = observe(pipe::Mode::Par(parts));
+    drop(c);
+    let idx = cx.case(format!("EXPLAIN cpus={} {}", hw(), prog.request("seq").splitn(2, ' ').nth(1).unwrap_or("")),
+        format!("ran={} ranpar={} {}", ran.join(","), ranp.join(","), render_explain(&plan)), prog.steps.len() >= 2);
     cx.count("plan:explain");
-    if ran != kinds {
-        cx.oracle_fail(idx, "explain-is-not-the-plan-that-runs", format!("build_plan chain={kinds:?} chain received by the runner={ran:?}"));
+    if ran != kinds || ranp != kinds {
+        cx.oracle_fail(idx, "explain-is-not-the-plan-that-runs", format!("build_plan chain={kinds:?} chain received by the runner: seq={ran:?} par{parts}={ranp:?}"));
     }
-    // per-step facts of explain(): barrier flags, op counts of every Stateless step
-    for (st, k) in ex.steps.iter().zip(kinds.iter()) {
-        let is_barrier = matches!(k.as_str(), "GroupByKey" | "CombineValues" | "CombineValues+lifted" | "CoGroup" | "CombineGlobal");
-        let n_ops = k.strip_prefix("Stateless").and_then(|n| n.parse::<usize>().ok());
-        let desc_ok = n_ops.is_none_or(|n| st.description.starts_with(&format!("Apply {n} operations")));
-        if st.is_barrier != is_barrier || !desc_ok {
-            cx.oracle_fail(idx, "explain-is-not-the-plan-that-runs", format!("step {} ({}) barrier={} description={:?} vs chain node {k}", st.step, st.node_type, st.is_barrier, st.description));
+    explain_oracle(cx, idx, &plan);
+    // the decisions build_plan reports are the four passes' own decisions on the back-walked chain, in order
+    if let Ok(lit0) = pv::backwalk(&p, id) {
+        let src_len = match lit0.first() { Some(Node::Source { payload, vec_ops, .. }) => vec_ops.len(payload.as_ref()), _ => None };
+        let (f, fdec) = pv::fuse_tracked(lit0);
+        let (r, rdec) = pv::reorder_tracked(f);
+        let (l, ldec) = pv::lift_tracked(r);
+        let (_, ddec) = pv::drop_mid_tracked(l);
+        let mut want: Vec<String> = fdec.iter().chain(rdec.iter()).chain(ldec.iter()).chain(ddec.iter()).map(dec_enc).collect();
+        if let Some(parts) = expected_suggestion(src_len) { want.push(format!("Parts({},{parts})", opt_usize(src_len))); }
+        let got: Vec<String> = plan.optimizations.iter().map(dec_enc).collect();
+        if got != want { cx.oracle_fail(idx, "build-plan-decisions-are-not-the-passes-decisions-in-order", format!("build_plan reports {got:?}; the passes report {want:?}")); }
+        if plan.suggested_partitions != expected_suggestion(src_len) {
+            cx.oracle_fail(idx, "partition-suggestion-wrong", format!("suggested {:?} for source length {src_len:?}", plan.suggested_partitions));
         }
     }
-    // explain() must list exactly the nodes of the chain that runs, in order, with matching op counts
+    // explain() must list exactly the nodes of the four passes composed on the literal chain, in order
     let lit = pv::backwalk(&p, id).map(real_optimise).unwrap_or_default();
-    let ex_types: Vec<String> = ex.steps.iter().map(|s| s.node_type.clone()).collect();
-    let chain_types: Vec<String> = lit.iter().map(|n| match n {
-        Node::Source { .. } => "Source", Node::Stateless(_) => "Stateless", Node::GroupByKey { .. } => "GroupByKey",
-        Node::CombineValues { .. } => "CombineValues", Node::CoGroup { .. } => "CoGroup", Node::CombineGlobal { .. } => "CombineGlobal", Node::Materialized(_) => "Materialized",
-    }.to_string()).collect();
-    let stateless_ops: usize = lit.iter().map(|n| if let Node::Stateless(os) = n { os.len() } else { 0 }).sum();
-    if ex_types != chain_types || ex.cost_estimate.stateless_ops != stateless_ops || ex.steps.iter().enumerate().any(|(i, s)| s.step != i + 1) {
-        cx.oracle_fail(idx, "explain-is-not-the-plan-that-runs", format!("explain={ex_types:?} chain={chain_types:?}"));
+    if kinds_of(&lit) != kinds {
+        cx.oracle_fail(idx, "build-plan-chain-is-not-the-four-passes-composed", format!("build_plan={kinds:?} composed={:?}", kinds_of(&lit)));
+    }
+}
+
+/// operator that records the length of every partition it is applied to (= how many partitions the engine made)
+struct PartProbe(Arc<Mutex<Vec<usize>>>);
+impl DynOp for PartProbe {
+    fn apply(&self, input: Partition) -> Partition {
+        let v = input.downcast::<Vec<u8>>().expect("probe: bytes");
+        self.0.lock().unwrap().push(v.len());
+        v
+    }
+}
+
+/// `suggest_partitions` against the documented heuristic, and against the partition count that
+/// `collect_par(None, None)` (= `Runner::default()`) really uses, observed by counting the partitions a stateless
+/// operator is applied to. `len` is chosen so that the split is exact (the source splits into exactly `parts` chunks).
+fn parts_case(cx: &mut Ctx, len: Option<usize>) {
+    let h = hw();
+    let want = expected_suggestion(len);
+    let direct = pv::suggest_partitions(len);
+    let seen: Arc<Mutex<Vec<usize>>> = Default::default();
+    let mut chain: Vec<Node> = vec![];
+    if let Some(n) = len { chain.push(Node::Source { payload: Arc::new(vec![0u8; n]), vec_ops: vec_ops_for::<u8>(), elem_tag: TypeTag::of::<u8>() }); }
+    chain.push(Node::Stateless(vec![Arc::new(PartProbe(seen.clone()))]));
+    let (p, last) = pipeline_of(&chain);
+    let id = last.expect("non-empty");
+    let plan_sug = build_plan(&p, id).ok().and_then(|pl| pl.suggested_partitions);
+    // observable only when the engine can make that many partitions and the split is exact
+    let observable = match (len, want) { (Some(n), Some(w)) => n >= w && n.div_ceil(n.div_ceil(w)) == w, _ => false };
+    let used: String = if observable {
+        let r = guarded(move || Runner::default().run_collect::<u8>(&p, id).map(|v| v.len()));
+        let parts = seen.lock().unwrap().len();
+        match r { Ok(Ok(n)) if Some(n) == len => parts.to_string(), other => format!("run-failed:{other:?}").replace(' ', "_") }
+    } else { "-".into() };
+    let idx = cx.case(format!("PARTS cpus={h} len={} obs={}", opt_usize(len), u8::from(observable)), format!("suggested={} used={used}", opt_usize(plan_sug)), true);
+    cx.count("plan:partition-suggestion");
+    if plan_sug != want || direct != want {
+        cx.oracle_fail(idx, "partition-suggestion-wrong", format!("build_plan suggests {plan_sug:?}, suggest_partitions gives {direct:?}, documented heuristic (ceil(len/64000) clamped to [{h}, {}]) gives {want:?}", 8 * h));
+    }
+    if observable && Some(used.clone()) != plan_sug.map(|w| w.to_string()) {
+        cx.oracle_fail(idx, "collect-par-default-does-not-use-the-suggested-partitions", format!("collect_par(None, None) ran {used} partitions, the plan suggests {plan_sug:?}"));
     }
 }
 
 /// GBK followed by a lifted combine with an APPROXIMATE combiner (t-digest quantiles): the lift pass
-/// replaces `build_from_group` (adds + a final compress) by element-wise adds. Oracle only: literal
-/// chain vs optimised chain on the real engine, compared exactly.
+/// replaces `build_from_group` (adds + a final compress) by element-wise adds. The two runs need not be bit-identical
+/// (whether they are is recorded, not judged): each reported quantile must lie within a RANK tolerance of the
+/// requested one in the exact data of its key, in the literal and in the planned run. The data, the compression and
+/// the tolerance are fixed (nothing is derived from the seed).
 fn approx_lift_case(cx: &mut Ctx, n: usize, compression: f64) {
     use ironbeam::combiners::ApproxQuantiles;
+    let qs = [0.1, 0.5, 0.9];
     let rows: Vec<(i64, f64)> = (0..n).map(|i| ((i % 3) as i64, ((i * 7919) % 1000) as f64 / 8.0)).collect();
     let p = Pipeline::default();
-    let out = from_vec(&p, rows).group_by_key().combine_values_lifted(ApproxQuantiles::<f64>::new(vec![0.1, 0.5, 0.9], compression));
+    let out = from_vec(&p, rows.clone()).group_by_key().combine_values_lifted(ApproxQuantiles::<f64>::new(qs.to_vec(), compression));
     let id = out.node_id();
-    let run = |optimise: bool| -> String {
-        let chain = match pv::backwalk(&p, id) { Ok(c) => c, Err(e) => return format!("ERR {e}") };
+    let run = |optimise: bool| -> Result<Vec<(i64, Vec<f64>)>, String> {
+        let chain = match pv::backwalk(&p, id) { Ok(c) => c, Err(e) => return Err(format!("ERR {e}")) };
         let chain = if optimise { real_optimise(chain) } else { chain };
         match guarded(move || rv::exec_seq::<(i64, Vec<f64>)>(chain)) {
-            Ok(Ok(mut rows)) => { rows.sort_by_key(|r| r.0); rows.iter().map(|(k, qs)| format!("{k}:{}", qs.iter().map(|q| format!("{q:?}")).collect::<Vec<_>>().join("/"))).collect::<Vec<_>>().join(",") }
-            Ok(Err(e)) => format!("ERR {e}"),
-            Err(_) => "PANIC".into(),
+            Ok(Ok(mut rows)) => { rows.sort_by_key(|r| r.0); Ok(rows) }
+            Ok(Err(e)) => Err(format!("ERR {e}")),
+            Err(_) => Err("PANIC".into()),
         }
     };
     let lit = run(false);
     let opt = run(true);
     let idx = cx.case(format!("ORACLE-ONLY approx-lift n={n} compression={compression}"), "-".into(), true);
     cx.count("plan:approx-lift");
-    if lit != opt {
-        cx.oracle_fail(idx, "lift-changes-approximate-combiner-result", format!("literal={lit} optimised={opt}"));
+    cx.count(if lit == opt { "approx-lift:literal-and-planned-bit-identical" } else { "approx-lift:literal-and-planned-differ-within-tolerance" });
+    // rank tolerance: generous multiple of the t-digest's nominal accuracy, at least two ranks of the key's data
+    let mut worst = 0.0f64;
+    let mut worst_eps = 0.0f64;
+    for (name, res) in [("literal", &lit), ("planned", &opt)] {
+        let res = match res { Ok(r) => r, Err(e) => { cx.oracle_fail(idx, "lift-changes-approximate-combiner-result", format!("{name} run: {e}")); continue; } };
+        for key in 0..3i64 {
+            let mut data: Vec<f64> = rows.iter().filter(|r| r.0 == key).map(|r| r.1).collect();
+            data.sort_by(f64::total_cmp);
+            let got = res.iter().find(|r| r.0 == key).map(|r| r.1.clone());
+            if data.is_empty() { if got.is_some() { cx.oracle_fail(idx, "lift-changes-approximate-combiner-result", format!("{name}: key {key} without data has a result")); } continue; }
+            let Some(got) = got else { cx.oracle_fail(idx, "lift-changes-approximate-combiner-result", format!("{name}: key {key} missing")); continue; };
+            if got.len() != qs.len() { cx.oracle_fail(idx, "lift-changes-approximate-combiner-result", format!("{name}: key {key} has {} quantiles", got.len())); continue; }
+            let m = data.len() as f64;
+            let eps = (2.0 / compression).max(2.0 / m).max(0.02);
+            for (q, x) in qs.iter().zip(got.iter()) {
+                let below = data.iter().filter(|d| **d < *x).count() as f64 / m;
+                let upto = data.iter().filter(|d| **d <= *x).count() as f64 / m;
+                let err = if below > *q { below - q } else if upto < *q { q - upto } else { 0.0 };
+                if err > worst { worst = err; }
+                worst_eps = eps;
+                if !(x.is_finite() && below <= q + eps && upto >= q - eps) {
+                    cx.oracle_fail(idx, "lift-changes-approximate-combiner-result", format!("{name}: key {key} q={q}: {x} has rank [{below}, {upto}] in {} values, tolerance {eps}", data.len()));
+                }
+            }
+        }
     }
+    cx.notes.push(format!("approx-lift n={n} compression={compression}: worst rank error {worst:.4} (tolerance {worst_eps:.4}); literal and planned bit-identical: {}", lit == opt));
 }
 
 /// `group_by_key()` followed by a CLASSIC `combine_values` whose values are the groups themselves
@@ -460,10 +890,23 @@ pub fn run(cx: &mut Ctx) {
         gbk_then_classic_combine_case(cx, rows, parts);
     }
     for (n, c) in [(12usize, 100.0), (300, 20.0), (2000, 20.0), (5000, 50.0)] { approx_lift_case(cx, n, c); }
+
+    // partition suggestion and the partition count collect_par(None, None) uses
+    {
+        let h = hw();
+        let mut lens: Vec<Option<usize>> = vec![None, Some(0), Some(1), Some(5), Some(h), Some(10 * h), Some(64_000), Some(64_000 * h), Some(64_000 * h + 1),
+            Some(64_000 * (h + 1)), Some(64_000 * 3 * h), Some(64_000 * 8 * h - 1)];
+        if cx.tier != crate::ctx::Tier::Quick { lens.extend([Some(64_000 * 8 * h), Some(64_000 * 8 * h + 1), Some(64_000 * 9 * h), Some(64_000 * 5 * h + 12_345)]); }
+        else { lens.push(Some(64_000 * 8 * h + 1)); }
+        for l in lens { parts_case(cx, l); }
+    }
+
     // corpus: the shapes the property names
     let op = |code, arg, kp, vo, rs, cost| OpDesc { code, arg, kp, vo, rs, cost, defaulting: false };
     let dop = |code, arg, cost| OpDesc { code, arg, kp: true, vo: true, rs: false, cost, defaulting: true };
     let src = vec![(0, 1), (0, 2), (1, 3)];
+    let a3 = || ND::St(vec![op('A', 1, true, true, true, 3)]);
+    let f1 = || ND::St(vec![op('F', 2, true, true, true, 1)]);
     let corpus: Vec<Vec<ND>> = vec![
         vec![ND::Src(src.clone()), ND::St(vec![op('A', 1, true, true, true, 3)]), ND::St(vec![op('F', 2, true, true, true, 1)])],
         vec![ND::Src(src.clone()), ND::Gbk, ND::Cvl],
@@ -475,20 +918,67 @@ pub fn run(cx: &mut Ctx) {
         // a value-only, key-preserving op that does NOT claim reorder safety pins its block
         vec![ND::Src(src.clone()), ND::St(vec![dop('M', 2, 10)]), ND::St(vec![op('F', 2, true, true, true, 1)])],
         vec![ND::Src(src.clone()), ND::St(vec![op('A', 1, true, true, true, 3), dop('A', 1, 10), op('F', 2, true, true, true, 1)])],
+        // 9.. pass-ORDER witnesses: a marker between GBK and a lifted combine (lift runs BEFORE drop_mid: no lift);
+        // a marker between two blocks (fuse runs BEFORE drop_mid: the plan keeps two adjacent blocks); blocks around
+        // a lifted window; a block that is sorted only once it is fused
+        vec![ND::Src(src.clone()), ND::Gbk, ND::Mat(src.clone()), ND::Cvl],
+        vec![ND::Src(src.clone()), a3(), ND::Mat(src.clone()), f1()],
+        vec![ND::Src(src.clone()), a3(), f1(), ND::Gbk, ND::Cvl, a3(), f1()],
+        vec![ND::Src(src.clone()), ND::Mat(src.clone()), ND::Mat(src.clone()), a3(), ND::Gbk, ND::Cvl, ND::Mat(src.clone()), ND::Mat(src.clone())],
+        // 13.. the new node kinds
+        vec![ND::Src(src.clone()), a3(), ND::Cg(None), f1()],
+        vec![ND::Src(src.clone()), ND::Cg(Some(0)), ND::Cg(Some(2))],
+        vec![ND::Src(src.clone()), ND::Cog(vec![ND::Src(src.clone()), a3(), f1()], vec![ND::Src(vec![(0, 7), (1, 8), (1, 9)]), ND::Gbk, ND::Cvl]), a3(), f1()],
+        vec![ND::Src(src.clone()), ND::Cog(vec![ND::Src(src.clone()), ND::Cogn], vec![ND::Src(src.clone())])],
+        vec![a3(), f1()],
     ];
     for c in &corpus { plan_case(cx, c); }
-    for c in &[corpus[0].clone(), corpus[1].clone(), corpus[3].clone(), corpus[5].clone(), corpus[6].clone(), corpus[7].clone(), corpus[8].clone()] { planx_case(cx, c); }
+    for i in [0usize, 1, 3, 5, 6, 7, 8, 11, 13, 14, 15, 16] { planx_case(cx, &corpus[i]); }
+    // restating markers in the order witnesses (payload = the rows flowing there)
+    planx_case(cx, &[ND::Src(src.clone()), ND::Mat(src.clone()), a3(), f1()]);
+
+    // small-scope EXHAUSTIVE block: every chain `SRC n1 .. nk` over a 9-node alphabet (movable block of cost 3, movable
+    // block of cost 1, non-movable block, GBK, lifted combine, classic combine, marker, global combine, co-group),
+    // k <= 3 (quick) / k <= 4 (thorough): all pass-order interactions of up to four nodes, structurally + build_plan + explain
+    {
+        let alphabet: Vec<ND> = vec![a3(), f1(), ND::St(vec![op('K', 1, false, false, false, 10)]), ND::Gbk, ND::Cvl, ND::Cv, ND::Mat(src.clone()), ND::Cg(None),
+            ND::Cog(vec![ND::Src(src.clone()), a3(), f1()], vec![ND::Src(src.clone())])];
+        let kmax = if cx.tier == crate::ctx::Tier::Quick { 3 } else { 4 };
+        let mut total = 0usize;
+        for k in 0..=kmax {
+            let mut idx = vec![0usize; k];
+            loop {
+                let mut c = vec![ND::Src(src.clone())];
+                for i in &idx { c.push(alphabet[*i].clone()); }
+                plan_case(cx, &c);
+                total += 1;
+                let mut j = 0;
+                while j < k { idx[j] += 1; if idx[j] < alphabet.len() { break; } idx[j] = 0; j += 1; }
+                if j == k { break; }
+            }
+        }
+        cx.exhaustive_blocks.push(format!("PLAN: all {total} chains SRC n1..nk, k <= {kmax}, over the 9-node alphabet {{movable block cost 3, movable block cost 1, non-movable block, GBK, CVL, CV, MAT, CG, COG}}: every pass alone, build_plan, decisions, explain"));
+    }
+
+    // a user LiftableCombiner whose build_from_group is NOT the fold of add_input: the planner lifts on
+    // `local_groups.is_some()` alone (it cannot see the combiner), so literal and planned differ. Contract breach of the
+    // user's combiner, outside the property: correspondence case + statistics, never an oracle failure.
+    cx.notes.push("LIFTNEG: a user LiftableCombiner with build_from_group = sum + 1000 (not the fold): literal GBK->lifted combine and the planned direct combine differ by construction; recorded as `liftneg:*` statistics, outside the property (hypothesis `build_fold` of lift_pair_sem; negation witness lift_unsound_without_build_fold)".into());
+    planx_case_kind(cx, &[ND::Src(src.clone()), ND::Gbk, ND::Cvb], "LIFTNEG");
+    planx_case_kind(cx, &[ND::Src(vec![]), ND::Gbk, ND::Cvb], "LIFTNEG");
+    for _ in 0..cx.budget(6, 60) { let rows = gen_rows(cx); planx_case_kind(cx, &[ND::Src(rows), a3(), ND::Gbk, ND::Cvb], "LIFTNEG"); }
 
     // long all-movable blocks (beyond the small-sort regime of std's sorts)
     cx.notes.push("long all-movable blocks: lengths 21,24,33,40,48,64,100 with tied costs, structural (PLAN) and executed (PLANX)".into());
-    for _ in 0..cx.budget(16, 300) { let c = gen_long_chain(cx); cx.count("plan:long-movable-block"); plan_case(cx, &c); planx_case(cx, &c); }
+    for _ in 0..cx.budget(40, 400) { let c = gen_long_chain(cx); cx.count("plan:long-movable-block"); plan_case(cx, &c); planx_case(cx, &c); }
 
-    let n = cx.budget(1500, 30000);
+    let n = cx.budget(4000, 40000);
     for _ in 0..n { let c = gen_struct_chain(cx); plan_case(cx, &c); }
-    let n = cx.budget(500, 10000);
+    let n = cx.budget(1500, 15000);
     for i in 0..n {
         let c = gen_exec_chain(cx, i % 2 == 0);
         planx_case(cx, &c);
+        if i % 5 == 0 { plan_case(cx, &c); }
         if i % 4 == 0 {
             if let Some(m) = with_restating_marker(cx, &c) { cx.count("plan:executed-with-restating-marker"); planx_case(cx, &m); }
         }
@@ -496,13 +986,13 @@ pub fn run(cx: &mut Ctx) {
 
     // builder programs: explain() and planned == reference
     let o = pipe::CheckOpts { par_vs_seq: false, vs_reference: true };
-    let n = cx.budget(250, 5000);
+    let n = cx.budget(500, 6000);
     for i in 0..n {
         let opts = pipe::GenOpts { max_steps: 8, max_rows: 20, barriers: true, joins: i % 7 == 0, globals: true, nonlocal_batches: false };
         let p = pipe::gen_prog(&mut cx.rng, &opts);
         if matches!(pipe::reference(&p), pipe::RefOut::Panic) { continue; }
-        explain_case(cx, &p);
         let parts = 1 + cx.rng.below(5);
+        explain_case(cx, &p, parts);
         pipe::check_prog(cx, &p, &[pipe::Mode::Seq, pipe::Mode::Par(parts)], &o);
     }
 }
